@@ -21,8 +21,8 @@ func init() {
 			"(statement-level yields inside it) or a harness slice queue/stack with a yield between its load and store; final single-threaded drain; " +
 			"history checked with porcupine against a sequential FIFO/LIFO model plus direct duplicate/lost/invented checks; " +
 			"non-trivial = at least two calls overlapped in the recorded history; distinct = distinct context-switch signature",
-		Real: []string{"fpgo.ConcurrentQueue", "fpgo.ConcurrentStack", "fpgo.LinkedListQueue", "sync.RWMutex (TryLock-probed)"},
-		Stub: []string{"goroutine scheduler", "sync.Pool node allocator", "harness slice queue/stack (wrapped implementation variant)"},
+		Real:        []string{"fpgo.ConcurrentQueue", "fpgo.ConcurrentStack", "fpgo.LinkedListQueue", "sync.RWMutex (TryLock-probed)"},
+		Stub:        []string{"goroutine scheduler", "sync.Pool node allocator", "harness slice queue/stack (wrapped implementation variant)"},
 		Assumptions: []string{"porcupine results of Unknown (timeout) are counted as inconclusive and never reported"},
 	})
 }
